@@ -126,8 +126,12 @@ def _a64_reg(e, o):
         return NOT
     es, os_ = e.get("shape"), o.get("shape")
     es = es.lower() if isinstance(es, str) else es
-    if (es is None) != (os_ is None):
-        return DC
+    if es is None and os_ is not None:
+        # the entry declares a register without element shape, the instruction names a vector shape: kinds disagree
+        # (a shape-less '*' / scalar entry listed before the shaped one must not capture vector instructions)
+        return NOT
+    if es is not None and os_ is None:
+        return DC  # bare z0 / p0/m against a shaped entry: the statement is silent
     if es is None:
         return MUST
     return MUST if (es == os_ or "*" in (es, os_)) else NOT
